@@ -222,13 +222,17 @@ def bounded(ctx, real, rng):
             for kd in kinds:
                 if kd == "F":
                     gs = rng.choice(legal)
-                    text += "\nFiles: %s\nCopyright: c\nLicense: L\n" % " ".join(gs)
+                    text += "%s\nFiles: %s\nCopyright: c\nLicense: L\n" % (rng.choice(["", "", " ", "\t", " \t "]), " ".join(gs))
                     model.append(list(gs))
                 else:
-                    text += "\nLicense: X\n text\n"
+                    text += "%s\nLicense: X\n text\n" % rng.choice(["", "", " ", "\t"])
                     model.append(None)
             c = real.Copyright(text.splitlines(True))
             objs = list(c.all_paragraphs())[1:]          # without the header paragraph
+            if [isinstance(o, real.FilesParagraph) for o in objs] != [m is not None for m in model]:
+                fail = dict(what="a parsed document does not have the Files / License paragraphs of its text, in that order",
+                            operations=ops, got=[type(o).__name__ for o in objs])
+                break
             ops.append(["parsed", text])
         for step in range(rng.randint(2, 7)):
             op = rng.choice(["addf", "addf", "addl", "query", "query", "setfiles"])
